@@ -1,11 +1,161 @@
-import ALV.Model.C15
-import ALV.Spec.C15
+/-
+  C15 — property theorems: MultiKeyDict / StrategyDict stay coherent under any update history.
+  Only statements of the property, non-vacuity examples and the audit live here; the helper
+  lemmas are in `ALV.Lemmas.C15`, `ALV.Lemmas.C15MK`.
+
+  Vocabulary (definitions in `ALV.Model.C15` / `ALV.Spec.C15`):
+    `St K V`        the three maps `_keys_dict`, `_inv_dict`, storage;  `step`, `run` = the code
+    `Log K V`       the abstract key -> value map, bindings ordered by most recent assignment;
+                    `specStep`, `specRun` = the property
+    `Inv s`         the three maps are mutually consistent (one tuple per value, tuples partition
+                    the keys, `_keys_dict` = membership in the tuples, storage = `_inv_dict` reversed)
+    `Rep s l`       `Inv s`, and every value's tuple lists its keys in the order of `l`
+    `Op.valid`      key tuples of assignments are non-empty (the property's quantifier)
+  All theorems hold for every key type `K` and value type `V` with decidable equality and for
+  histories of any length.
+-/
+import ALV.Lemmas.C15MK
 import ALV.Common.Audit
 
 namespace ALV.Props.C15
 open ALV.C15
+variable {K V : Type} [DecidableEq K] [DecidableEq V]
 
-theorem placeholder_empty_get (k : Nat) : getitem (St.empty : St Nat Nat) k = none := rfl
+/-! ## the invariant -/
+
+/-- **C15.1** the empty dict is coherent -/
+theorem inv_init : Inv (St.empty : St K V) := rep_empty.inv
+
+/-- **C15.2** every operation preserves coherence, from *any* coherent state -/
+theorem inv_step {s : St K V} (h : Inv s) (op : Op K V) (hv : Op.valid op) : Inv (step s op).1 :=
+  (step_sim h.rep_absLog op hv).1.inv
+
+/-- **C15.3** hence every reachable state is coherent (induction over the history) -/
+theorem inv_reachable (ops : List (Op K V)) (hv : ∀ op ∈ ops, Op.valid op) :
+    Inv (run (St.empty : St K V) ops).1 :=
+  (run_sim ops rep_empty hv).1.inv
+
+/-! ## refinement: the three maps behave as the abstract key -> value map -/
+
+/-- **C15.4** one step: the new state represents the abstract successor, the caller sees the same
+    result (value, key tuple, length or `KeyError`) -/
+theorem step_refines {s : St K V} {l : Log K V} (h : Rep s l) (op : Op K V) (hv : Op.valid op) :
+    Rep (step s op).1 (specStep l op).1 ∧ (step s op).2 = (specStep l op).2 :=
+  step_sim h op hv
+
+/-- **C15.5** the same with the abstraction *function* `absLog`: `abs (step s op) ≈ specStep (abs s) op`
+    (`≈` = the same map with the same grouping), from any coherent state -/
+theorem abs_refines {s : St K V} (h : Inv s) (op : Op K V) (hv : Op.valid op) :
+    Log.equiv (absLog (step s op).1) (specStep (absLog s) op).1 ∧
+      (step s op).2 = (specStep (absLog s) op).2 := by
+  obtain ⟨h1, h2⟩ := step_sim h.rep_absLog op hv
+  refine ⟨fun v => ?_, h2⟩
+  rw [← h1.inv.rep_absLog.groups v, h1.groups v]
+
+/-- **C15.6** whole histories: same results at every step, final state represents the final map -/
+theorem run_refines (ops : List (Op K V)) (hv : ∀ op ∈ ops, Op.valid op) :
+    Rep (run (St.empty : St K V) ops).1 (specRun [] ops).1 ∧
+      (run (St.empty : St K V) ops).2 = (specRun ([] : Log K V) ops).2 :=
+  run_sim ops rep_empty hv
+
+/-! ## corollaries in the words of the property -/
+
+/-- **C15.7** `d[k]` is the last value assigned to `k` (by an assignment whose tuple contains `k`,
+    not followed by a deletion of `k`); `KeyError` when there is none -/
+theorem getitem_last_assigned (ops : List (Op K V)) (hv : ∀ op ∈ ops, Op.valid op) (k : K) :
+    getitem (run (St.empty : St K V) ops).1 k = lastAssigned k ops none := by
+  rw [(run_sim ops rep_empty hv).1.getitem_eq k]
+  exact last_assigned_spec k ops []
+
+/-- **C15.8** each value owns exactly one key tuple: the storage is, up to order, one entry per
+    distinct value, whose key is the tuple of all keys bound to that value (`keysOf`);
+    `key2keys` and lookup by tuple agree with it -/
+theorem value_owns_one_tuple (ops : List (Op K V)) (hv : ∀ op ∈ ops, Op.valid op) :
+    let s := (run (St.empty : St K V) ops).1
+    let l := (specRun ([] : Log K V) ops).1
+    s.store.Perm ((specValues l).map (fun v => (keysOf l v, v))) ∧
+    (∀ v, value2keys s v = keysOf l v) ∧
+    (∀ k v, getitem s k = some v → key2keys s k = some (keysOf l v) ∧ getTuple s (keysOf l v) = some v) := by
+  intro s l
+  have h : Rep s l := (run_sim ops rep_empty hv).1
+  refine ⟨h.items_perm, h.groups, ?_⟩
+  intro k v hk
+  have hl : dget l k = some v := by rw [← h.getitem_eq]; exact hk
+  refine ⟨by rw [h.key2keys_eq]; simp [specKey2keys, hl], ?_⟩
+  obtain ⟨t, ht, _⟩ := h.mem_log.mp (dget_some_mem hl)
+  have : keysOf l v = t := by rw [← h.groups, h.inv.v2k_of_mem ht]
+  rw [this]; exact h.inv.store_get ht
+
+/-- **C15.9** … listing its keys in order of most recent assignment: after `d[keys] = v` the tuple
+    of `v` is its older keys that were not given again, in their previous order, followed by the
+    given keys (a key given twice counts at its last position); other tuples just lose the given keys -/
+theorem recency_order (l : Log K V) (keys : List K) (v w : V) :
+    keysOf (specSet l keys v) v = (keysOf l v).filter (fun k => k ∉ keys) ++ dedupLast keys ∧
+    (w ≠ v → keysOf (specSet l keys v) w = (keysOf l w).filter (fun k => k ∉ keys)) := by
+  unfold specSet
+  constructor
+  · rw [keysOf_append, keysOf_map_same, keysOf_filter l (fun k => decide (k ∉ keys))]
+  · intro hw
+    rw [keysOf_append, keysOf_map_other _ (Ne.symm hw), List.append_nil,
+      keysOf_filter l (fun k => decide (k ∉ keys))]
+
+/-- **C15.10** the de-duplication loop of the code keeps the last occurrence of every key -/
+theorem dedup_keeps_last (keys : List K) :
+    dedupLastCode keys = dedupLast keys ∧ (dedupLast keys).Nodup ∧ ∀ k, k ∈ dedupLast keys ↔ k ∈ keys :=
+  ⟨dedupLastCode_eq keys, nodup_dedupLast keys, fun _ => mem_dedupLast⟩
+
+/-- **C15.11** `len` and iteration count values, not keys: iteration yields every bound value
+    exactly once and `len` is their number -/
+theorem len_iter_count_values (ops : List (Op K V)) (hv : ∀ op ∈ ops, Op.valid op) :
+    let s := (run (St.empty : St K V) ops).1
+    (iterValues s).Nodup ∧ (∀ v, v ∈ iterValues s ↔ ∃ k, getitem s k = some v) ∧
+      len s = (iterValues s).length := by
+  intro s
+  have h : Rep s (specRun ([] : Log K V) ops).1 := (run_sim ops rep_empty hv).1
+  refine ⟨h.inv.invNodup, fun v => ?_, ?_⟩
+  · rw [h.mem_iter, mem_specValues]
+    constructor
+    · rintro ⟨k, hk⟩; exact ⟨k, by rw [h.getitem_eq]; exact dget_of_mem_nodup h.logNodup hk⟩
+    · rintro ⟨k, hk⟩; exact ⟨k, dget_some_mem (by rw [← h.getitem_eq]; exact hk)⟩
+  · rw [h.len_eq, h.iter_perm.length_eq]; rfl
+
+/-- **C15.12** deleting a missing key raises `KeyError` and changes nothing; deleting a bound key
+    succeeds and unbinds exactly that key -/
+theorem del_missing_keyError (ops : List (Op K V)) (hv : ∀ op ∈ ops, Op.valid op) (k : K) :
+    let s := (run (St.empty : St K V) ops).1
+    (getitem s k = none → step s (.del k) = (s, .keyError)) ∧
+    (∀ v, getitem s k = some v → (step s (.del k)).2 = .done ∧
+        ∀ k', getitem (step s (.del k)).1 k' = if k' = k then none else getitem s k') := by
+  intro s
+  have h : Rep s (specRun ([] : Log K V) ops).1 := (run_sim ops rep_empty hv).1
+  constructor
+  · intro hk
+    rcases delitem_sim h k with ⟨_, hd⟩ | ⟨s', hl, _, _⟩
+    · simp [step, hd]
+    · rw [← h.getitem_eq, hk] at hl; cases hl
+  · intro v hk
+    rcases delitem_sim h k with ⟨hl, _⟩ | ⟨s', _, hd, hrep⟩
+    · rw [← h.getitem_eq, hk] at hl; cases hl
+    · simp only [step, hd, true_and]
+      intro k'
+      rw [hrep.getitem_eq, h.getitem_eq, dget_filter_key _ (fun x => decide (x ≠ k))]
+      by_cases hkk : k' = k <;> simp [hkk]
+
+/-! ## non-vacuity: the hypotheses are satisfiable and the statements speak about real histories -/
+
+/-- the docstring example of `MultiKeyDict` -/
+example : (run (St.empty : St Nat Nat)
+    [.set [1] 3, .set [2] 3, .set [4] 2, .set [1] 2, .len, .get 1, .get 2, .get 4, .del 7]).2
+    = [.done, .done, .done, .done, .num 2, .val 2, .val 3, .val 2, .keyError] := by decide
+example : (run (St.empty : St Nat Nat) [.set [1] 3, .set [2] 3, .set [4] 2, .set [1] 2]).1.store
+    = [([2], 3), ([4, 1], 2)] := by decide
+example : (specRun ([] : Log Nat Nat) [.set [1] 3, .set [2] 3, .set [4] 2, .set [1] 2]).1
+    = [(2, 3), (4, 2), (1, 2)] := by decide
+example : ∀ op ∈ ([.set [1, 2, 1] 3, .del 2] : List (Op Nat Nat)), Op.valid op := by
+  intro op h; simp at h; rcases h with rfl | rfl <;> simp [Op.valid]
+example : dedupLast [1, 2, 1, 3, 2] = [1, 3, 2] := by decide
+example : lastAssigned 1 ([.set [1, 2] 0, .set [2] 5, .del 2, .set [3, 1] 7] : List (Op Nat Nat)) none
+    = some 7 := by decide
 
 end ALV.Props.C15
 
